@@ -41,6 +41,7 @@ def run_property(pid, tier, seed, only=None, keep=False, nworkers=16):
     engine_b = getattr(mod, "engine_b", None)
     scr = kani.Scratch("run")
     violations, known_seen, unreal = [], [], []
+    findings = [f for f in load_findings() if f.get("property") == pid]
     results = []
     b_results = []
     try:
@@ -63,7 +64,6 @@ def run_property(pid, tier, seed, only=None, keep=False, nworkers=16):
         # ---- counterexamples -> native replay
         failed = [r for r in results if r.status == "failed"]
         exes = None
-        findings = [f for f in load_findings() if f.get("property") == pid]
         for r in failed:
             if exes is None:
                 exes, err = kani.build_replayer(scr)
@@ -93,6 +93,14 @@ def run_property(pid, tier, seed, only=None, keep=False, nworkers=16):
                     break
             if best:
                 verdict, text, vals = best
+            if verdict != "reproduced" and exes and hasattr(mod, "fallback_candidates"):
+                # the solver reported a failed check but no usable input values came back (trace generation timed out, or the values
+                # belong to an abstract environment): confirm on a grid of concrete inputs of the same harness body, natively
+                for v in mod.fallback_candidates(j):
+                    vd, tx = kani.replay_native(exes[:1], j.body, j.params, v)
+                    if vd == "reproduced":
+                        verdict, text, vals = vd, tx + " [input found by the native candidate grid after the solver flagged the obligation]", v
+                        break
             r.replay = {"verdict": verdict, "text": text, "inputs": [str(v) for v in vals]}
             if verdict == "reproduced":
                 role = mod.finding_role(j, vals, text) if hasattr(mod, "finding_role") else None
@@ -117,6 +125,12 @@ def run_property(pid, tier, seed, only=None, keep=False, nworkers=16):
         for b in b_results:
             if b["status"] == "failed":
                 if b.get("reproduced"):
+                    role = b.get("role")
+                    listed = [f for f in findings if f.get("status") == "known" and role and f.get("role") == role]
+                    if listed:
+                        known_seen.append({"role": role, "job": b["id"], "inputs": [str(b.get("native", ""))[:200]], "what": listed[0].get("what", "")})
+                        b["status"] = "known-finding"
+                        continue
                     os.makedirs(os.path.join(EVID, "replays"), exist_ok=True)
                     hh = hashlib.sha256((b["id"] + str(b.get("model"))).encode()).hexdigest()[:10]
                     path = os.path.join(EVID, "replays", "%s-%s.json" % (pid, hh))
